@@ -130,7 +130,9 @@ class ComplexType(BaseType):
         )
 
     def _to_hash_string(self) -> str:
-        return type(self).__name__ + "/" + ",".join(map(get_hash_string, self.types))
+        # Brackets delimit the member list: without them nested types are ambiguous, e.g.
+        # Union[A, List[Union[A, B]], C] and Union[A, List[Union[A, B, C]]] would get the same hash string
+        return type(self).__name__ + "/[" + ",".join(map(get_hash_string, self.types)) + "]"
 
 
 class DOptional(SingleType):
